@@ -90,7 +90,25 @@ def inline_simple_calls(expr: ast.AST, lookup, depth: int = 2) -> ast.AST:
                 return node
             body = [st for st in fn.body if not isinstance(st, ast.Assert)
                     and not (isinstance(st, ast.Expr) and isinstance(st.value, ast.Constant))]
-            if len(body) != 1 or not isinstance(body[0], ast.Return) or body[0].value is None:
+            ret_expr = None
+            if len(body) == 1 and isinstance(body[0], ast.Return) and body[0].value is not None:
+                ret_expr = body[0].value
+            elif len(body) >= 2 and isinstance(body[-1], ast.Return) and body[-1].value is not None:
+                # guard-style boolean helper: `if c: return False` ... `return E`  ==  (not c) and ... and E
+                #                             `if c: return True`  ... `return E`  ==  c or ... or E      (one kind per helper)
+                kinds, conds = set(), []
+                for st in body[:-1]:
+                    if not (isinstance(st, ast.If) and not st.orelse and len(st.body) == 1 and isinstance(st.body[0], ast.Return)
+                            and isinstance(st.body[0].value, ast.Constant) and isinstance(st.body[0].value.value, bool)):
+                        kinds = None
+                        break
+                    kinds.add(st.body[0].value.value)
+                    conds.append(st.test)
+                if kinds == {False}:
+                    ret_expr = ast.BoolOp(op=ast.And(), values=[ast.UnaryOp(op=ast.Not(), operand=c) for c in conds] + [body[-1].value])
+                elif kinds == {True}:
+                    ret_expr = ast.BoolOp(op=ast.Or(), values=list(conds) + [body[-1].value])
+            if ret_expr is None:
                 return node
             params = [a.arg for a in fn.args.posonlyargs + fn.args.args]
             if params and params[0] in ("self", "cls") and isinstance(node.func, ast.Attribute):
@@ -109,7 +127,7 @@ def inline_simple_calls(expr: ast.AST, lookup, depth: int = 2) -> ast.AST:
                 binding.setdefault(name, d)
             if any(name not in binding for name in params):
                 return node
-            out = _Subst(binding, 1).visit(copy.deepcopy(body[0].value))
+            out = _Subst(binding, 1).visit(copy.deepcopy(ret_expr))
             return inline_simple_calls(out, lookup, depth - 1)
     return T().visit(copy.deepcopy(expr))
 
